@@ -325,7 +325,27 @@ def write_evidence(ctx, prop, nviol):
     os.makedirs(evdir, exist_ok=True)
     json.dump(ev, open(os.path.join(evdir, ctx.id + '.json'), 'w'), indent=1)
 
+def run_proof(ctx, pr):
+    """TLAPS proof of an inductive invariant of a specification (about the model, unbounded)."""
+    t = time.time()
+    try:
+        r = subprocess.run(['tlapm', '--threads', '8', '--cleanfp', pr['module'] + '.tla'], cwd=ctx.specdir, capture_output=True, text=True, timeout=pr.get('timeout', 600))
+    except (subprocess.TimeoutExpired, OSError) as e:
+        raise Infra('tlapm did not finish on %s: %s' % (pr['module'], e))
+    out = r.stdout + r.stderr
+    m = re.search(r'All (\d+) obligations? proved', out)
+    if not m:
+        raise Infra('TLAPS proof %s failed:\n%s' % (pr['module'], out[-2000:]))
+    n = int(m.group(1))
+    ctx.cov.setdefault('proofs', []).append(dict(module=pr['module'], obligations=n, discharged=n, checker_cmd='tlapm --threads 8 --cleanfp %s.tla' % pr['module'],
+                                                 theorem=pr.get('theorem', ''), wall_s=round(time.time() - t, 1)))
+    log('TLAPS %s: all %d obligations proved in %.1fs' % (pr['module'], n, time.time() - t))
+
 def run_property(ctx, prop):
+    for pr in prop.get('proofs', []):
+        if os.environ.get('VERIF_DEV_SKIP_MC'):
+            continue
+        run_proof(ctx, pr)
     for mc in prop.get('mc', []):
         if mc.get('tiers') and ctx.tier not in mc['tiers']:
             continue
